@@ -7,12 +7,12 @@ MANIFEST = dict(
          "to exactly one worker; workers are intercepted by a pthread monitor. Worker frames / MT==ST on bounded shapes; condensed index map "
          "bijection facts for n <= 64.",
     note="pthread_create/join replaced by a monitor (assumed contract: a worker runs once between create and join). Thread count bounded "
-         "(8 quick / 24 thorough) by unwinding; rows symbolic <= 2^20. The slicing loop of KMeansppCenters is embedded in a data-dependent outer loop and is checked for concrete small row/thread counts only; "
+         "(8 quick / 24 thorough) by unwinding; rows symbolic <= 2^20. The slicing loops of KMeansppCenters and MDC are embedded in data-dependent outer loops and are checked for concrete small row/thread counts only; "
          "MDC's (same pattern, 1 of the 10 sites) is not covered. Numerical distance axioms (triangle inequality etc.) not decided.",
     technique="CBMC on the real slicing loops with a pthread monitor contract; rows symbolic, thread count by unwinding with unwinding assertions")
 
 META = dict(decided="row partition among workers for MT matrix-vector kernels, distance kernels, k-means labelling; worker write frames; index map facts",
-            not_decided="triangle inequality / non-negativity numerics; MDC and k-means++ slicing inside data-dependent loops; real interleavings",
+            not_decided="triangle inequality / non-negativity numerics; MDC and k-means++ slicing beyond the enumerated row/thread counts; real interleavings",
             trusted_base=["pthread monitor contract (harness/C13/mon.h)"], assumptions=["rows <= 2^20, thread count <= bound stated per job"])
 
 def jobs(tier):
@@ -88,6 +88,13 @@ def jobs(tier):
                          unwind=max(rows, nth) + 4, functions=["KMeansppCenters"], object_bits=10,
                          bound="concrete rows=%d, threads=%d (outer seeding loop is data dependent); one seeding round" % (rows, nth),
                          clause="k-means++ distance pass: every row is handed to exactly one worker (counts above / not dividing the row count, and one)"))
+    for rows in ((2, 3, 5) if tier == "quick" else (2, 3, 4, 5, 6, 7)):
+        for nth in ((1, 2, 3, 4) if tier == "quick" else (1, 2, 3, 4, 5, 6, 8)):
+            J.append(Job("slice_MDC@rows=%d,nth=%d" % (rows, nth), "C13/slicing_mdc.c", entry="h_slice_MDC",
+                         srcs=["vector.c", "memwrapper.c", "numeric.c", "matrix.c", "metricspace.c"], kind="bounded", defines={"VC_ROWS": rows, "VC_NTH": nth},
+                         unwind=max(rows, nth) + 4, functions=["MDC"], object_bits=10,
+                         bound="concrete rows=%d, threads=%d (selection loop is data dependent); two selection rounds" % (rows, nth),
+                         clause="MDC distance pass: in every round every row is handed to exactly one worker (counts above / not dividing the row count, and one)"))
     J.append(Job("GetNProcessor", "C13/nproc.c", entry="h_GetNProcessor", srcs=[], kind="proof", defines={}, functions=["GetNProcessor"],
                  bound="all return values of sysconf (assumed contract: an arbitrary long); loop-free",
                  clause="detected thread count is at least one"))
